@@ -1191,13 +1191,16 @@ func compileGenericForStmt(context *funcContext, stmt *ast.GenericForStmt) { // 
 	nnames := len(stmt.Names)
 
 	context.EnterBlock(endlabel, stmt)
+
+	// the explist is adjusted to the three control values (generator, state,
+	// control), whatever the number of loop variables. Like the names of a
+	// local statement they are declared after the explist is compiled: an
+	// expression compiled below the register top is taken for a store into
+	// an existing local and claims no temporaries
+	compileRegAssignment(context, []string{"(for generator)", "(for state)", "(for control)"}, stmt.Exprs, context.RegTop(), 3, sline(stmt))
 	rgen := context.RegisterLocalVar("(for generator)")
 	context.RegisterLocalVar("(for state)")
 	context.RegisterLocalVar("(for control)")
-
-	// the explist is adjusted to the three control values (generator, state,
-	// control), whatever the number of loop variables
-	compileRegAssignment(context, []string{"(for generator)", "(for state)", "(for control)"}, stmt.Exprs, context.RegTop()-3, 3, sline(stmt))
 
 	code.AddASbx(OP_JMP, 0, fllabel, sline(stmt))
 
